@@ -19,7 +19,7 @@ the operand's width; for CMP/TEST it is congruent to d−s / d&s modulo 2^4 for 
 MUL/IMUL set CF = OF = 1 exactly when the product does not fit — the handler's own tests on the 2N-bit product term are
 evaluated for the products whose bits N−1..2N−1 are all zero, all one, and every single-bit deviation from either
 (1 248 product classes over 17 forms); `overflowing_mul` forms are judged on its overflow flag, width and signedness.
-The numeric value of CF/OF/AF of additions and subtractions stays declined (seeded change S01 shows the cost). **reads** (round 5) computes the rflags dependence per result bit through constant shifts, masks, casts and comparisons, so any spelling of a condition (`(f >> 7 ^ f >> 11) & 1`) depends on exactly the flags it tests.""",
+The numeric value of CF/OF/AF of additions and subtractions stays declined (seeded change S01 shows the cost). **reads** (round 5) computes the rflags dependence per result bit through constant shifts, masks, casts and comparisons, so any spelling of a condition (`(f >> 7 ^ f >> 11) & 1`) depends on exactly the flags it tests. **carry** (round 7, after revisiting the one seeded change that had been declined, S01): for the 88 additive forms the handler's own CF/OF computation is interpreted with the operands fixed at the boundary points (0, 1, largest positive, most negative, -1, for both operands and both incoming carries; immediates at the values the form can encode) and compared with the architectural definition. This is constant propagation through the abstract interpreter, exhaustive for the classes the architecture distinguishes (operand signs x carry into the top bit x carry-in) but not for an implementation that deviates strictly inside a class; S01 (`OF = o1 || o2` for a two-step signed addition) is reported at d = MIN, s = -1, cf = 1. Making this exact required keeping signed operation terms structurally distinct from their unsigned twins over the same operands (signedness had been a per-term tag, so `(d as i64).overflowing_add(s as i64)` turned `d.overflowing_add(s)` signed as well).""",
 "C08": """*As built (round 2).* **le** is decided by bit provenance over byte tuples: the reader's value has byte i of the N/8
 bytes read at the caller's address in bits 8i..8i+7 and zeroes above; the writer hands the byte store N/8 bytes, byte i
 being bits 8i..8i+7 of the value — whatever conversions spell it (`to/from_{le,be}_bytes`, shifts and casts, padded
